@@ -59,6 +59,10 @@ bitlen = z3.Function('bitlen', Int, Int)                    # number of bits of 
 rnbrs = z3.Function('rnbrs', Int, Int, ISeq)       # right neighbours of left vertex u in the (abstract) bipartite graph g
 apseq = z3.Function('apseq', Int, Int, ISeq)       # [start, start+1, ..., start+n-1]
 negunits = z3.Function('negunits', ISeq, CSeq)     # [[-l] for l in s]
+idxcombs = z3.Function('idxcombs', Int, Int, CSeq)  # itertools.combinations(range(n), c): index tuples, in order
+iflip1 = z3.Function('iflip1', ISeq, Int, ISeq)     # s with s[i] negated
+iflips = z3.Function('iflips', ISeq, ISeq, Int, ISeq)   # s with the positions F[0..t) negated
+neqprefix = z3.Function('neqprefix', ISeq, Int, Int, CSeq)  # [iflips(s, F, c) for F in idxcombs(len s, c)[:t]]
 signvecs = z3.Function('signvecs', Int, CSeq)     # itertools.product([1,-1], repeat=n), in order
 sprod = z3.Function('sprod', ISeq, Int)           # product of the entries
 smul = z3.Function('smul', ISeq, ISeq, ISeq)      # [l*s for l,s in zip(lits, signs)]
@@ -123,7 +127,7 @@ FUNCS = dict(tlen=tlen, tcoef=tcoef, tlit=tlit, tunit=tunit, tnegc=tnegc, tset=t
              ilen=ilen, iget=iget, inil=inil, isnoc=isnoc, iapp=iapp, ineg=ineg, haszero=haszero,
              maxof=maxof, minof=minof, maxabs=maxabs, lit_true=lit_true, count=count, ctrue=ctrue,
              clen=clen, cget=cget, cnil=cnil, csnoc=csnoc, capp=capp, ctake=ctake, combs=combs, sat=sat,
-             cmaxabs=cmaxabs, pow2=pow2, chaszero=chaszero, psum=psum, card2=card2, isperm=isperm, sortedperm=sortedperm, invperm=invperm, imapsub=imapsub, zpos=zpos, mpos=mpos, rnbrs=rnbrs, apseq=apseq, negunits=negunits, signvecs=signvecs, sprod=sprod, smul=smul, pfilter=pfilter)
+             cmaxabs=cmaxabs, pow2=pow2, chaszero=chaszero, psum=psum, card2=card2, isperm=isperm, sortedperm=sortedperm, invperm=invperm, imapsub=imapsub, zpos=zpos, mpos=mpos, rnbrs=rnbrs, apseq=apseq, negunits=negunits, idxcombs=idxcombs, iflip1=iflip1, iflips=iflips, neqprefix=neqprefix, signvecs=signvecs, sprod=sprod, smul=smul, pfilter=pfilter)
 
 
 def zmax(a, b):
@@ -143,7 +147,8 @@ def b2i(b):
 
 
 # schemas used in VCs whose Lean proof is not (yet) in lemmas/: reported as ASSUMED LEMMAS in every evidence file
-ASSUMED_SCHEMAS = ['tmaxabs_witness (tmpos), thaszero_witness (tzpos), thaszero_of_get: added after the third Lean pass (same shape as the proved ISeq witnesses)',
+ASSUMED_SCHEMAS = ['iflips / iflip1 / idxcombs / neqprefix schemas of the != builder (the semantic core is Neq.lean neq_main; the list-level wrappers were added after the third Lean pass)',
+                   'tmaxabs_witness (tmpos), thaszero_witness (tzpos), thaszero_of_get: added after the third Lean pass (same shape as the proved ISeq witnesses)',
                    'card2_store side condition: proved in Lean (CnfSem.card2_store) for FINITE pair sets only; that every edge set '
                    'is finite (built from the empty set by finitely many add/remove) is not expressible in the VCs']
 
@@ -289,6 +294,35 @@ def _on_terms(terms_by_decl):
     for (s_,) in terms_by_decl.get('negunits', []):
         nu = negunits(s_)
         out += [clen(nu) == ilen(s_), cmaxabs(nu) == maxabs(s_), chaszero(nu) == haszero(s_)]
+    for (sq, F, t) in terms_by_decl.get('iflips', []):
+        # Neq.lean iflips_*: flipping positions one after the other; sizes and literal magnitudes are unchanged
+        out += [z3.Implies(t == 0, iflips(sq, F, t) == sq),
+                z3.Implies(z3.And(0 <= t, t < ilen(F)), iflips(sq, F, t + 1) == iflip1(iflips(sq, F, t), iget(F, t))),
+                ilen(iflips(sq, F, t)) == ilen(sq), maxabs(iflips(sq, F, t)) == maxabs(sq), haszero(iflips(sq, F, t)) == haszero(sq)]
+    for (sq, i) in terms_by_decl.get('iflip1', []):
+        out += [ilen(iflip1(sq, i)) == ilen(sq), maxabs(iflip1(sq, i)) == maxabs(sq), haszero(iflip1(sq, i)) == haszero(sq)]
+    for (c_, t) in terms_by_decl.get('cget', []):
+        if z3.is_app(c_) and c_.decl().name() == 'idxcombs':
+            n, k = c_.children()
+            F = cget(c_, t)
+            jf = z3.Int('j!ic')
+            # Neq.lean idxcombs_elem: every element is a strictly increasing k-tuple of positions 0..n-1;
+            # flipping it twice (in the same order) restores the list
+            out += [z3.Implies(z3.And(0 <= t, t < clen(c_)), distinct_idx(F)),
+                    z3.Implies(z3.And(0 <= t, t < clen(c_)), z3.And(ilen(F) == k,
+                    z3.ForAll([jf], z3.Implies(z3.And(0 <= jf, jf < k), z3.And(0 <= iget(F, jf), iget(F, jf) < n)))))]
+    for (sq, F, t) in terms_by_decl.get('iflips', []):
+        # un-flipping: applying the same positions again, in the same order, after a complete pass
+        if z3.is_app(sq) and sq.decl().name() == 'iflips':
+            s0, F0, t0 = sq.children()
+            out.append(z3.Implies(z3.And(F0 == F, t0 == ilen(F), t == ilen(F), _distinct_idx(F)), iflips(sq, F, t) == s0))
+    for (sq, c, t) in terms_by_decl.get('neqprefix', []):
+        n = ilen(sq)
+        out += [z3.Implies(t == 0, neqprefix(sq, c, t) == cnil),
+                z3.Implies(z3.And(0 <= t, t < clen(idxcombs(n, c))),
+                           neqprefix(sq, c, t + 1) == csnoc(neqprefix(sq, c, t), iflips(sq, cget(idxcombs(n, c), t), c))),
+                z3.Implies(z3.And(0 <= t, t <= clen(idxcombs(n, c))), z3.And(cmaxabs(neqprefix(sq, c, t)) <= maxabs(sq),
+                           z3.Implies(z3.Not(haszero(sq)), z3.Not(chaszero(neqprefix(sq, c, t))))))]
     for (n,) in terms_by_decl.get('signvecs', []):
         out.append(z3.Implies(n >= 0, clen(signvecs(n)) == pow2(n)))           # Bits.lean length_signs
     for (l, d, t) in terms_by_decl.get('pfilter', []):
@@ -374,6 +408,13 @@ def _has_ite(e):
             return True
         stack.extend(x.children())
     return False
+
+
+distinct_idx = z3.Function('distinct_idx', ISeq, Bool)     # the entries are pairwise distinct
+
+
+def _distinct_idx(F):
+    return distinct_idx(F)
 
 
 def _forall(vs, body, patterns):
@@ -480,6 +521,10 @@ def _sem_on_terms(asgs, terms_by_decl):
         for (s_,) in terms_by_decl.get('negunits', []):
             # every literal false  (Count.lean sat_negunits): needs non-zero literals
             out.append(z3.Implies(z3.Not(haszero(s_)), sat(a, negunits(s_)) == (count(a, s_) == 0)))
+        for (sq, c, t) in terms_by_decl.get('neqprefix', []):
+            # L5 NEQ (Neq.lean neq_main): flipping every c-subset of positions gives clauses that are all true iff count != c
+            out.append(z3.Implies(z3.And(0 <= c, c <= ilen(sq), z3.Not(haszero(sq)), t == clen(idxcombs(ilen(sq), c))),
+                                  sat(a, neqprefix(sq, c, t)) == (count(a, sq) != c)))
         for (l, d, t) in terms_by_decl.get('pfilter', []):
             # L6 PARITY (Parity.lean parity_main): the sign patterns of product d over non-zero literals
             out.append(z3.Implies(z3.And(z3.Or(d == 1, d == -1), z3.Not(haszero(l)), t == pow2(ilen(l))),
